@@ -894,21 +894,45 @@ func (t *Typechecker) checkFieldAccess(Lhs *ast.Ident, originalType ddptypes.Typ
 	}
 
 	// if the type was imported, check for public/private fields
-	if structDecl, exists, _ := t.CurrentTable.LookupDecl(structType.Name); exists {
-		// the name might be shadowed by something that is not the struct
-		if structDecl, isStructDecl := structDecl.(*ast.StructDecl); isStructDecl && structDecl.Mod != t.Module {
-			for _, field := range structDecl.Fields {
-				if field.Name() == Lhs.Literal.Literal {
-					if field, ok := field.(*ast.VarDecl); ok && !field.IsPublic {
-						t.errExpr(ddperror.TYP_PRIVATE_FIELD_ACCESS, Lhs, "Das Feld %s der Struktur %s ist nicht öffentlich", Lhs.Literal.Literal, originalType.String())
-					}
-					break
+	// the declaration is looked up by type and not by name, because the name does not have to be visible here
+	// (the value might come from an imported function) or might stand for something else in this module
+	if structDecl := t.findImportedStructDecl(structType); structDecl != nil {
+		for _, field := range structDecl.Fields {
+			if field.Name() == Lhs.Literal.Literal {
+				if field, ok := field.(*ast.VarDecl); ok && !field.IsPublic {
+					t.errExpr(ddperror.TYP_PRIVATE_FIELD_ACCESS, Lhs, "Das Feld %s der Struktur %s ist nicht öffentlich", Lhs.Literal.Literal, originalType.String())
 				}
+				break
 			}
 		}
 	}
 
 	return fieldType
+}
+
+// returns the declaration of structType if it was declared in a module that is imported (directly or not) by the current module
+// and nil if it was declared in the current module
+func (t *Typechecker) findImportedStructDecl(structType *ddptypes.StructType) *ast.StructDecl {
+	var result *ast.StructDecl
+	ast.IterateModuleImports(t.Module, func(mod *ast.Module) {
+		if result != nil || mod == t.Module {
+			return
+		}
+		decl, ok := mod.PublicDecls[structType.Name].(*ast.StructDecl)
+		if !ok {
+			return
+		}
+		if decl.Type == ddptypes.Type(structType) {
+			result = decl
+		} else if generic, isGeneric := ddptypes.CastGenericStructType(decl.Type); isGeneric {
+			for _, instantiation := range generic.Instantiations {
+				if instantiation == structType {
+					result = decl
+				}
+			}
+		}
+	})
+	return result
 }
 
 // reports wether the given type from this module of the given table is public
